@@ -44,7 +44,7 @@ theorem np_exprIntoAddress (env : CompileEnv) (e : Expr) : NoPanic (exprIntoAddr
 theorem np_exprIntoAssets (e : Expr) : NoPanic (exprIntoAssets e) := by
   unfold exprIntoAssets; split <;> first | exact np_ok _ | exact np_cerr _
 theorem np_exprIntoUtxoRefs (e : Expr) : NoPanic (exprIntoUtxoRefs e) := by
-  unfold exprIntoUtxoRefs; split <;> first | exact np_ok _ | exact np_cerr _
+  unfold exprIntoUtxoRefs; split <;> first | exact np_ok _ | exact np_cerr _ | (split <;> first | exact np_ok _ | exact np_cerr _)
 theorem np_utxoRefIntoInput (r : UtxoRef) : NoPanic (utxoRefIntoInput r) := by
   unfold utxoRefIntoInput; exact np_bind (np_bytesIntoHash _ _) fun _ => np_ok _
 theorem np_exprIntoAddressKeyhash (e : Expr) : NoPanic (exprIntoAddressKeyhash e) := by
@@ -332,22 +332,21 @@ theorem np_exprIntoStakeCredential (env : CompileEnv) (e : Expr) : NoPanic (expr
   unfold exprIntoStakeCredential
   apply np_bind (np_exprIntoAddress _ _); intro a
   split
-  · simp only; split <;> first | exact np_ok _ | exact np_cerr _
+  · simp only
+    repeat (first | exact np_ok _ | exact np_cerr _ | split)
   · exact np_cerr _
 
 theorem np_compileCerts (env : CompileEnv) (t : Tx) : NoPanic (compileCerts env t) := by
   unfold compileCerts
-  apply np_bind
-  · apply np_mapMO
-    intro d
-    apply np_bind (np_getOrMissing _); intro _
-    apply np_bind (np_exprIntoStakeCredential _ _); intro _
-    apply np_bind (np_getOrMissing _); intro _
-    apply np_bind (np_exprIntoBytes _); intro _
-    apply np_bind (np_bytesIntoHash _ _); intro _
-    exact np_pure _
-  intro _
-  exact np_ok _
+  apply np_mapMO
+  intro d
+  apply np_bind (np_getOrMissing _); intro _
+  apply np_bind (np_exprIntoStakeCredential _ _); intro sc
+  obtain ⟨script, cred⟩ := sc
+  apply np_bind (np_getOrMissing _); intro _
+  apply np_bind (np_exprIntoBytes _); intro _
+  apply np_bind (np_bytesIntoHash _ _); intro _
+  exact np_pure _
 
 theorem np_compileRequiredSigners (t : Tx) : NoPanic (compileRequiredSigners t) := by
   unfold compileRequiredSigners
